@@ -38,6 +38,68 @@ def group_expr_strategy():
     return st.recursive(leaf, ext, max_leaves=7)
 
 
+_CHAIN_LEAVES = [('lit', 'a'), ('lit', 'b'), ('lit', ','), ('rx', '[ab]')]
+_CHAIN_OPS = ('right', 'left', 'choice', 'sep', 'sept', 'apply', 'applyl', 'where', 'opt', 'star')
+
+
+def chain_trees(n, counter):
+    """Every expression with exactly n operators from the binary rows of the precedence table
+    (>> << | // /? |> <| where) and the postfix ? and *, in every grouping; operands are typed
+    (the right operand of |> and the left operand of <| are functions, that of `where` a predicate)."""
+    if n == 0:
+        i = counter[0]
+        counter[0] += 1
+        yield _CHAIN_LEAVES[i % len(_CHAIN_LEAVES)]
+        return
+    for op in _CHAIN_OPS:
+        if op in ('opt', 'star'):
+            c0 = counter[0]
+            for e in chain_trees(n - 1, counter):
+                if op == 'star' and peg.nullable(e, {}):
+                    continue
+                yield ('opt', e) if op == 'opt' else ('rep', e, 0, None)
+                counter[0] = c0
+            counter[0] = c0
+            continue
+        for k in range(n):
+            ln, rn = k, n - 1 - k
+            if op in ('apply', 'where') and rn:
+                continue
+            if op == 'applyl' and ln:
+                continue
+            c0 = counter[0]
+            if op == 'applyl':
+                for r in chain_trees(rn, counter):
+                    yield ('applyl', ('py', 'lambda v: (v, 1)'), r)
+                    counter[0] = c0
+                continue
+            for l in chain_trees(ln, counter):
+                c1 = counter[0]
+                if op == 'apply':
+                    yield ('apply', l, ('py', 'lambda v: [v]'))
+                elif op == 'where':
+                    yield ('where', l, ('py', 'lambda v: v != "b" and v != ["b"]'))
+                else:
+                    for r in chain_trees(rn, counter):
+                        if op in ('sep', 'sept'):
+                            if not (peg.nullable(l, {}) or peg.nullable(r, {})):
+                                yield ('sep', l, r, False, op == 'sept', True, False)
+                        elif op == 'choice':
+                            yield ('choice', [l, r])
+                        else:
+                            yield (op, l, r)
+                        counter[0] = c1
+                counter[0] = c0
+            counter[0] = c0
+
+
+def all_chains(maxn):
+    out = []
+    for n in range(2, maxn + 1):
+        out.extend(chain_trees(n, [0]))
+    return out
+
+
 def dimensions(a, b):
     """Rough count of spelling dimensions in which two renderings differ."""
     dims = 0
@@ -61,7 +123,9 @@ class C19(Check):
             'ignore/ignored, bare expression vs start = ..., and MINIMAL parentheses computed from the precedence table of '
             'the statement; rendering A is canonical and fully parenthesised. Both must compile and agree on every entry and '
             'all inputs of length <= 4 (+ random longer ones); the reference on the AST must agree with both. Non-trivial iff '
-            'the two texts differ in >= 2 spelling dimensions and in their parenthesisation; distinct by (text B, entry, input).')
+            'the two texts differ in >= 2 spelling dimensions and in their parenthesisation; distinct by (text B, entry, input). '
+            'Plus an exhaustive matrix: every expression with 2 (thorough: 3) operators out of >> << | // /? |> <| where ? * in '
+            'every grouping, written with minimal parentheses / mixed constructor forms, on all inputs of length <= 4 over "ab,".')
     assumptions = ['constructor forms are never used for operands that are bare inline Python (the documented exception)',
                    'let expressions are always parenthesised (their body extends as far as possible)']
     budget_quick = 170
@@ -70,10 +134,66 @@ class C19(Check):
     def tasks(self, tier, seed):
         n = 16 if tier == 'quick' else 64
         per = 50 if tier == 'quick' else 350
-        return [('hyp', seed * 1000003 + s, per) for s in range(n)]
+        chains = [('chains', i, 16, 2 if tier == 'quick' else 3) for i in range(16)]
+        return [('hyp', seed * 1000003 + s, per) for s in range(n)] + chains
+
+    def run_chains(self, task):
+        """Exhaustive: every grouping of 2 (thorough: 3) operators of the precedence table, written with
+        the fewest parentheses the table allows, against the fully parenthesised text and the reference."""
+        res = Result()
+        _, shard, nshards, maxn = task
+        trees = all_chains(maxn)
+        groups = [trees[i:i + 10] for i in range(0, len(trees), 10)]
+        alpha = 'ab,'
+        inputs = gens.all_inputs(alpha, 4) + ['a,b,a,b', 'ab,ab,', 'a,a,a,', 'bbbbb', 'b,a,b,a,b']
+        for gi, grp in enumerate(groups):
+            if gi % nshards != shard:
+                continue
+            if runner.time_left() < 0:
+                res.truncated = True
+                break
+            rules = [('rule', 'X%d' % i, None, e) for i, e in enumerate(grp)]
+            rules.append(('rule', 'start', None, ('ref', 'X0')))
+            g = peg.G(rules)
+            a = peg.render(g)
+            ma, ea = sut.compile_grammar(a)
+            variants = [[2] * 6000, [2, 1, 2, 2, 3] * 1200, [(gi * 7 + j * j * 3 + j) % 61 + 1 for j in range(600)]]
+            for bits in variants:
+                b = peg.render2(g, bits)
+                mb, eb = sut.compile_grammar(b)
+                if ma is None or mb is None:
+                    res.evals += 1
+                    res.mismatch({'g': peg.g_to_dict(g), 'bits': bits, 'entry': 'start', 'text': ''})
+                    continue
+                res.hist['chain_renderings'] += 1
+                for i in range(len(grp)):
+                    name = 'X%d' % i
+                    fa, fb = sut.entry(ma, name), sut.entry(mb, name)
+                    for t in inputs:
+                        oa = sut.run(ma, None, t, budget=diff.QUICK_BUDGET, fn=fa)
+                        ob = sut.run(mb, None, t, budget=diff.QUICK_BUDGET, fn=fb)
+                        res.evals += 1
+                        bad = oa != ob
+                        if not bad and bits is variants[0]:
+                            try:
+                                r = peg.Interp(g, t).run_rule(name)
+                                bad = not sut.agrees(sut.expected(r, t), ob)
+                            except (peg.StepLimit, peg.RefError, RecursionError):
+                                res.hist['ref_outside_domain'] += 1
+                        if oa[0] != 'FAIL':
+                            res.nontrivial.add(h64(b, name, t))
+                        if bad:
+                            sub = peg.G([('rule', name, None, grp[i]), ('rule', 'start', None, ('ref', name))])
+                            res.mismatch({'g': peg.g_to_dict(sub), 'bits': bits, 'entry': name, 'text': t})
+                            break
+            if len(res.samples) < 1:
+                res.sample({'chain_rendering_minimal': peg.render2(g, variants[0])[:300], 'fully_parenthesised': a[:300]})
+        return res
 
     def run_task(self, task):
         from hypothesis import given, settings, seed, HealthCheck, Phase, strategies as st
+        if task[0] == 'chains':
+            return self.run_chains(task)
         res = Result()
         _, s, n = task
         ge = group_expr_strategy()
